@@ -1,7 +1,7 @@
-//! BOUNDED (native only), EXPLORATION AID for the unclaimed property C12: the delta/total protocol of the trrel_uf provider (binary:
-//! trrel_union_find_binary_ind.rs, ternary: adaptor/bin_rel_to_ternary.rs) driven the way ascent-generated code drives it (compile_mir_scc: `delta = take(field)`, empty total,
+//! BOUNDED (native only): the delta/total protocol of the trrel_uf provider (binary: trrel_union_find_binary_ind.rs, ternary:
+//! adaptor/bin_rel_to_ternary.rs over it) driven the way ascent-generated code drives it (compile_mir_scc: `delta = take(field)`, empty total,
 //! `init`, guarded head updates into `new`, merge at the end of every iteration, two closing merges at a stratum end) and read
-//! back through every index view, compared with the explicit REFLEXIVE transitive closure (reflexive on mentioned elements).  Not registered in any check.
+//! back through every index view, compared with the explicit REFLEXIVE transitive closure (reflexive on mentioned elements).  Never counted as proved.
 use crate::{chk, Report, Src};
 
 #[cfg(not(kani))]
@@ -38,8 +38,7 @@ mod imp {
    fn total3(v: &[(u8, u8, u8)], prev: &Rows, now: &Rows) -> bool { set3(v).is_superset(prev) && set3(v).is_subset(now) && nodup3(v) }
    fn covering(v: &[(u8, u8, u8)], want: &Rows, within: &Rows) -> bool { set3(v).is_superset(want) && set3(v).is_subset(within) }
 
-   /// what the provider is built to hold (`anti_reflexive` is always true): the per-key transitive closure WITHOUT the pairs
-   /// (x, x) that only a cycle implies; a pair (x, x) that was inserted explicitly is kept
+   /// the oracle of every obligation: the per-key REFLEXIVE transitive closure (reflexive on mentioned elements)
    fn tc(p: &Rows, keys: usize, d: usize) -> Rows {
       let mut q = p.clone();
       for &(k, a, b) in p {
@@ -48,6 +47,9 @@ mod imp {
       }
       tc_full(&q, keys, d)
    }
+   /// the new rows that lie INSIDE one class of the closure (x reaches y and y reaches x, in particular (x, x)): the provider keeps
+   /// a class as one node and its delta never shows them - the known finding of C12, kept apart from the other obligations
+   fn inside_a_class(added: &Rows, now: &Rows) -> Rows { added.iter().filter(|&&(k, a, b)| now.contains(&(k, b, a))).cloned().collect() }
    /// per-key transitive closure as the rule r(x, z) <-- r(x, y), r(y, z) computes it
    fn tc_full(p: &Rows, keys: usize, d: usize) -> Rows {
       let mut out = Rows::new();
@@ -201,7 +203,7 @@ mod imp {
             RelIndexMerge::init(&mut new, &mut delta, &mut total);
             let known = tc(&merged, 1, D2);
             let d = read2(&delta);
-            chk!(r, "trrel_stratum_start_delta_is_everything_known", d.full_contains == known && exact(&d.none_get, &known) && exact(&d.i0_get, &known) && exact(&d.i1_get, &known));
+            chk!(r, "trrel_uf_stratum_start_delta_is_everything_known", d.full_contains == known && exact(&d.none_get, &known) && exact(&d.i0_get, &known) && exact(&d.i1_get, &known));
             continue;
          }
          if c <= 16 {
@@ -211,10 +213,11 @@ mod imp {
             let key = (row.1, row.2);
             let in_total = to_full.to_rel_index(&total).contains_key(&key);
             let in_delta = to_full.to_rel_index(&delta).contains_key(&key);
-            chk!(r, "trrel_guard_total_or_delta_knows_exactly_the_merged_closure", (in_total || in_delta) == tc(&merged, 1, D2).contains(&row));
+            chk!(r, "trrel_uf_guard_total_or_delta_knows_exactly_the_merged_closure", (in_total || in_delta) == tc(&merged, 1, D2).contains(&row));
             if !in_total && !in_delta {
                let fresh = to_full_w.to_rel_index_write(&mut new).insert_if_not_present(&key, ());
-               chk!(r, "trrel_insert_if_not_present_true_exactly_for_pairs_not_yet_in_new", fresh || new_raw.contains(&row));
+               // a pair that is not yet in `new` must be reported as new (it drives `__changed`)
+               chk!(r, "trrel_uf_insert_if_not_present_true_for_pairs_not_yet_in_new", fresh || new_raw.contains(&row));
                new_raw.insert(row);
             }
          } else {
@@ -223,17 +226,22 @@ mod imp {
             merged = offered.clone();
             let c_now = tc(&merged, 1, D2);
             new_raw.clear();
-            let added: Rows = c_now.difference(&c_prev).cloned().collect();
+            let added_all: Rows = c_now.difference(&c_prev).cloned().collect();
+            let in_class = inside_a_class(&added_all, &c_now);
+            let added: Rows = added_all.difference(&in_class).cloned().collect();
             let t = read2(&total);
             let d = read2(&delta);
-            chk!(r, "trrel_total_full_index_is_the_previous_closure", t.full_contains.is_superset(&c_prev) && t.full_contains.is_subset(&c_now) && t.full_get.is_superset(&c_prev) && t.full_get.is_subset(&c_now) && total3(&t.full_all, &c_prev, &c_now));
-            chk!(r, "trrel_total_no_index_is_the_previous_closure", total3(&t.none_get, &c_prev, &c_now) && total3(&t.none_all, &c_prev, &c_now));
-            chk!(r, "trrel_total_index_0_is_the_previous_closure", total3(&t.i0_get, &c_prev, &c_now) && total3(&t.i0_all, &c_prev, &c_now));
-            chk!(r, "trrel_total_index_1_is_the_previous_closure", total3(&t.i1_get, &c_prev, &c_now) && total3(&t.i1_all, &c_prev, &c_now));
-            chk!(r, "trrel_delta_full_index_is_exactly_the_new_pairs", d.full_contains == added && d.full_get == added && exact(&d.full_all, &added));
-            chk!(r, "trrel_delta_no_index_is_exactly_the_new_pairs", exact(&d.none_get, &added) && exact(&d.none_all, &added));
-            chk!(r, "trrel_delta_index_0_covers_the_new_pairs_within_the_closure", covering(&d.i0_get, &added, &c_now) && covering(&d.i0_all, &added, &c_now));
-            chk!(r, "trrel_delta_index_1_covers_the_new_pairs_within_the_closure", covering(&d.i1_get, &added, &c_now) && covering(&d.i1_all, &added, &c_now));
+            chk!(r, "trrel_uf_total_full_index_is_the_previous_closure", t.full_contains.is_superset(&c_prev) && t.full_contains.is_subset(&c_now) && t.full_get.is_superset(&c_prev) && t.full_get.is_subset(&c_now) && total3(&t.full_all, &c_prev, &c_now));
+            chk!(r, "trrel_uf_total_no_index_is_the_previous_closure", total3(&t.none_get, &c_prev, &c_now) && total3(&t.none_all, &c_prev, &c_now));
+            chk!(r, "trrel_uf_total_index_0_is_the_previous_closure", total3(&t.i0_get, &c_prev, &c_now) && total3(&t.i0_all, &c_prev, &c_now));
+            chk!(r, "trrel_uf_total_index_1_is_the_previous_closure", total3(&t.i1_get, &c_prev, &c_now) && total3(&t.i1_all, &c_prev, &c_now));
+            // every delta view must cover the new pairs and stay inside the closure (over-approximating delta is sound, only slower)
+            chk!(r, "trrel_uf_delta_full_index_covers_the_new_pairs_within_the_closure",
+               d.full_contains.is_superset(&added) && d.full_contains.is_subset(&c_now) && d.full_get.is_superset(&added) && d.full_get.is_subset(&c_now) && covering(&d.full_all, &added, &c_now));
+            chk!(r, "trrel_uf_delta_no_index_covers_the_new_pairs_within_the_closure", covering(&d.none_get, &added, &c_now) && covering(&d.none_all, &added, &c_now));
+            chk!(r, "trrel_uf_delta_index_0_covers_the_new_pairs_within_the_closure", covering(&d.i0_get, &added, &c_now) && covering(&d.i0_all, &added, &c_now));
+            chk!(r, "trrel_uf_delta_index_1_covers_the_new_pairs_within_the_closure", covering(&d.i1_get, &added, &c_now) && covering(&d.i1_all, &added, &c_now));
+            chk!(r, "trrel_uf_delta_shows_the_new_pairs_inside_a_class", covering(&d.none_get, &in_class, &c_now) && d.full_contains.is_superset(&in_class));
             if !r.failed.is_empty() && r.notes.len() < 3 {
                r.note(format!("after a merge: expected total = {:?}, expected new pairs in delta = {:?}", c_prev, added));
                r.note(format!("total views: full {:?} none {:?} [0] {:?} [1] {:?}", t.full_contains, t.none_get, t.i0_get, t.i1_get));
@@ -243,9 +251,7 @@ mod imp {
       }
       let d = read2(&delta);
       let c_all = tc(&offered, 1, D2);
-      chk!(r, "trrel_fixpoint_is_the_transitive_closure", d.full_contains == c_all && exact(&d.none_get, &c_all) && exact(&d.i0_get, &c_all) && exact(&d.i1_get, &c_all));
-      // the property itself ("as the rule r(x,z) <-- r(x,y), r(y,z) would produce, including pairs (x,x) implied by cycles")
-      let _ = tc_full(&offered, 1, D2);
+      chk!(r, "trrel_uf_fixpoint_is_the_transitive_closure", d.full_contains == c_all && exact(&d.none_get, &c_all) && exact(&d.i0_get, &c_all) && exact(&d.i1_get, &c_all));
       // the other write path: index_insert (BinaryRel::insert) loads facts into `new` before run(); one merge closes them
       let mut n2 = Bin::default();
       let mut d2 = Bin::default();
@@ -256,7 +262,7 @@ mod imp {
       }
       RelIndexMerge::merge_delta_to_total_new_to_delta(&mut n2, &mut d2, &mut t2);
       let dv = read2(&d2);
-      chk!(r, "trrel_index_insert_then_merge_gives_the_closure", dv.full_contains == c_all && exact(&dv.none_get, &c_all) && exact(&dv.i0_get, &c_all) && exact(&dv.i1_get, &c_all) && exact(&dv.i1_all, &c_all));
+      chk!(r, "trrel_uf_index_insert_then_merge_gives_the_closure", dv.full_contains == c_all && exact(&dv.none_get, &c_all) && exact(&dv.i0_get, &c_all) && exact(&dv.i1_get, &c_all) && exact(&dv.i1_all, &c_all));
    }
 
    // ---------------------------------------------------------------------------------------------------------------
@@ -439,7 +445,7 @@ mod imp {
             RelIndexMerge::init(&mut new, &mut delta, &mut total);
             let known = tc(&merged, K3, D3);
             let d = read3(&delta, K3);
-            chk!(r, "ternary_trrel_stratum_start_delta_is_everything_known", d.full_contains == known && exact(&d.none_get, &known) && d.lookups.iter().all(|(_, g)| exact(g, &known)));
+            chk!(r, "ternary_trrel_uf_stratum_start_delta_is_everything_known", d.full_contains == known && exact(&d.none_get, &known) && d.lookups.iter().all(|(_, g)| exact(g, &known)));
             continue;
          }
          if c < it_end {
@@ -448,10 +454,10 @@ mod imp {
             offered.insert(row);
             let in_total = to_full.to_rel_index(&total).contains_key(&row);
             let in_delta = to_full.to_rel_index(&delta).contains_key(&row);
-            chk!(r, "ternary_trrel_guard_total_or_delta_knows_exactly_the_merged_closure", (in_total || in_delta) == tc(&merged, K3, D3).contains(&row));
+            chk!(r, "ternary_trrel_uf_guard_total_or_delta_knows_exactly_the_merged_closure", (in_total || in_delta) == tc(&merged, K3, D3).contains(&row));
             if !in_total && !in_delta {
                let fresh = to_full_w.to_rel_index_write(&mut new).insert_if_not_present(&row, ());
-               chk!(r, "ternary_trrel_insert_if_not_present_true_exactly_for_rows_not_yet_in_new", fresh || new_raw.contains(&row));
+               chk!(r, "ternary_trrel_uf_insert_if_not_present_true_for_rows_not_yet_in_new", fresh || new_raw.contains(&row));
                new_raw.insert(row);
             }
          } else {
@@ -460,17 +466,21 @@ mod imp {
             merged = offered.clone();
             let c_now = tc(&merged, K3, D3);
             new_raw.clear();
-            let added: Rows = c_now.difference(&c_prev).cloned().collect();
+            let added_all: Rows = c_now.difference(&c_prev).cloned().collect();
+            let in_class = inside_a_class(&added_all, &c_now);
+            let added: Rows = added_all.difference(&in_class).cloned().collect();
             let t = read3(&total, K3);
             let d = read3(&delta, K3);
-            chk!(r, "ternary_trrel_total_full_index_is_the_previous_closure", t.full_contains.is_superset(&c_prev) && t.full_contains.is_subset(&c_now) && t.full_get.is_superset(&c_prev) && t.full_get.is_subset(&c_now) && total3(&t.full_all, &c_prev, &c_now));
-            chk!(r, "ternary_trrel_total_no_index_is_the_previous_closure", total3(&t.none_get, &c_prev, &c_now) && total3(&t.none_all, &c_prev, &c_now));
-            chk!(r, "ternary_trrel_total_lookups_are_the_previous_closure", t.lookups.iter().all(|(_, g)| total3(g, &c_prev, &c_now)));
-            chk!(r, "ternary_trrel_total_scans_are_the_previous_closure", t.scans.iter().all(|(_, g)| total3(g, &c_prev, &c_now)));
-            chk!(r, "ternary_trrel_delta_full_index_is_exactly_the_new_rows", d.full_contains == added && d.full_get == added && exact(&d.full_all, &added));
-            chk!(r, "ternary_trrel_delta_no_index_is_exactly_the_new_rows", exact(&d.none_get, &added) && exact(&d.none_all, &added));
-            chk!(r, "ternary_trrel_delta_lookups_cover_the_new_rows_within_the_closure", d.lookups.iter().all(|(_, g)| covering(g, &added, &c_now)));
-            chk!(r, "ternary_trrel_delta_scans_cover_the_new_rows_within_the_closure", d.scans.iter().all(|(_, g)| covering(g, &added, &c_now)));
+            chk!(r, "ternary_trrel_uf_total_full_index_is_the_previous_closure", t.full_contains.is_superset(&c_prev) && t.full_contains.is_subset(&c_now) && t.full_get.is_superset(&c_prev) && t.full_get.is_subset(&c_now) && total3(&t.full_all, &c_prev, &c_now));
+            chk!(r, "ternary_trrel_uf_total_no_index_is_the_previous_closure", total3(&t.none_get, &c_prev, &c_now) && total3(&t.none_all, &c_prev, &c_now));
+            chk!(r, "ternary_trrel_uf_total_lookups_are_the_previous_closure", t.lookups.iter().all(|(_, g)| total3(g, &c_prev, &c_now)));
+            chk!(r, "ternary_trrel_uf_total_scans_are_the_previous_closure", t.scans.iter().all(|(_, g)| total3(g, &c_prev, &c_now)));
+            chk!(r, "ternary_trrel_uf_delta_full_index_covers_the_new_rows_within_the_closure",
+               d.full_contains.is_superset(&added) && d.full_contains.is_subset(&c_now) && d.full_get.is_superset(&added) && d.full_get.is_subset(&c_now) && covering(&d.full_all, &added, &c_now));
+            chk!(r, "ternary_trrel_uf_delta_no_index_covers_the_new_rows_within_the_closure", covering(&d.none_get, &added, &c_now) && covering(&d.none_all, &added, &c_now));
+            chk!(r, "ternary_trrel_uf_delta_lookups_cover_the_new_rows_within_the_closure", d.lookups.iter().all(|(_, g)| covering(g, &added, &c_now)));
+            chk!(r, "ternary_trrel_uf_delta_scans_cover_the_new_rows_within_the_closure", d.scans.iter().all(|(_, g)| covering(g, &added, &c_now)));
+            chk!(r, "ternary_trrel_uf_delta_shows_the_new_rows_inside_a_class", covering(&d.none_get, &in_class, &c_now) && d.full_contains.is_superset(&in_class));
             if !r.failed.is_empty() && r.notes.len() < 4 {
                r.note(format!("after a merge: expected total = {:?}, expected new rows in delta = {:?}", c_prev, added));
                r.note(format!("total: full {:?} lookups {:?}", t.full_contains, t.lookups));
@@ -480,8 +490,7 @@ mod imp {
       }
       let d = read3(&delta, K3);
       let c_all = tc(&offered, K3, D3);
-      chk!(r, "ternary_trrel_fixpoint_is_the_per_key_transitive_closure", d.full_contains == c_all && exact(&d.none_get, &c_all) && d.lookups.iter().all(|(_, g)| exact(g, &c_all)));
-      let _ = tc_full(&offered, K3, D3);
+      chk!(r, "ternary_trrel_uf_fixpoint_is_the_per_key_transitive_closure", d.full_contains == c_all && exact(&d.none_get, &c_all) && d.lookups.iter().all(|(_, g)| exact(g, &c_all)));
    }
 }
 #[cfg(not(kani))]
